@@ -304,11 +304,43 @@ class Sim:
             kw['env'] = env
             self.fake_now += 3600 * (1 + self.rng.below(72))
         res = self.arr.cmd(op, *args, **kw)
+        if op == 'fix':
+            # fix may leave a file that carries a RECORDED size and time-stamp with other bytes than the version known under
+            # that stamp: it restores the blocks that have a recorded hash, leaves the pending ones as they are on disk and
+            # sets the recorded time.  Such a (path, size, stamp) no longer identifies one byte string.
+            self.refresh_after_fix(res)
         self.remember()
         self.log('snapraid %s %s -> rc=%d' % (op, ' '.join(args), res.rc))
         if getattr(self, 'track_lengths', False):
             self.update_synced_lengths()
         return res
+
+    def refresh_after_fix(self, res):
+        # only the files fix says it wrote
+        touched = set()
+        for t in res.tags:
+            q = t.split(':')
+            if q[0] == 'fixed' and len(q) >= 4: touched.add((q[2], e2e.unesc_tag(q[3])))
+            elif q[0] == 'status' and len(q) >= 4 and q[1] == 'recovered': touched.add((q[2], e2e.unesc_tag(q[3])))
+        for d in self.arr.disks:
+            base = self.arr.ddir(d)
+            for dp, dn, fn in os.walk(base):
+                for n in fn:
+                    p = os.path.join(dp, n)
+                    st = os.lstat(p)
+                    if stat.S_ISREG(st.st_mode):
+                        rel = os.fsencode(os.path.relpath(p, base))
+                        if (d, rel) not in touched and (d, os.fsdecode(rel)) not in touched: continue
+                        key = (d, rel, st.st_size, st.st_mtime_ns)
+                        if key in self.store:
+                            with open(p, 'rb') as f: cur = f.read()
+                            if cur != self.store[key]:
+                                # two different byte strings are now known under one (path, size, stamp): which of them a
+                                # recorded block means depends on its state (a hashed block: the old bytes, a pending one:
+                                # what is on disk).  The harness does not decide: blocks of this version are not judged
+                                if not hasattr(self, 'ambiguous'): self.ambiguous = set()
+                                self.ambiguous.add(key)
+                                self.refreshed = getattr(self, 'refreshed', 0) + 1
 
     def update_synced_lengths(self):
         """(generator column, position) -> length of the block last recorded as synced there"""
@@ -345,6 +377,8 @@ class Sim:
         if nsec == 0:
             return None      # STAT_NSEC_INVALID
         key = (disk, frec['sub'], frec['size'], frec['sec'] * 1_000_000_000 + (nsec - 1))
+        if key in getattr(self, 'ambiguous', ()):
+            return None
         return self.store.get(key)
 
     def invariant_problems(self, dec=None, levels=None, want_blocks=False):
